@@ -179,6 +179,9 @@ pub struct ScenShape {
     /// the only attempt fails with a retry left and the retry never comes (a run cut by
     /// fail-fast, a skipped step rewritten by `fail_on_skipped` under retries)
     pub cut: bool,
+    /// the only attempt carries the counter of an explicit budget of zero (`@retry(0)`):
+    /// `Retries { current: 0, left: 0 }`, not "no retries"
+    pub zero: bool,
 }
 
 #[derive(Clone, Debug)]
@@ -290,7 +293,7 @@ pub fn build_poset(shape: &Shape) -> Poset {
             let step_text = format!("step {sname} 1");
             let mut prev = start_pred;
             for k in 0..s.attempts {
-                let retries = if s.cut { Some((0, 1)) } else { (s.attempts > 1).then(|| (k, s.attempts - 1 - k)) };
+                let retries = if s.cut { Some((0, 1)) } else if s.zero { Some((0, 0)) } else { (s.attempts > 1).then(|| (k, s.attempts - 1 - k)) };
                 let last_attempt = k + 1 == s.attempts && !s.cut;
                 let mut seq = vec![ScEv::Started];
                 if s.events == 4 {
@@ -360,7 +363,7 @@ pub fn shapes(max_weight: usize, max_feats: usize, max_scen: usize) -> Vec<Shape
     for rule in [0usize, 1, 2] {
         for attempts in 1..=2 {
             for events in [2usize, 3] {
-                scen_opts.push(ScenShape { rule, attempts, events, cut: false });
+                scen_opts.push(ScenShape { rule, attempts, events, cut: false, zero: false });
             }
         }
     }
@@ -606,7 +609,7 @@ fn final_checks(input: &[Ev], out: &[Ev], order: &[usize], shape_idx: usize, sta
 pub fn tier_shapes(thorough: bool) -> Vec<Shape> {
     let mut v = if thorough { shapes(14, 2, 3) } else { shapes(12, 2, 2) };
     // three overlapping features (the middle one may stay idle while the third one buffers)
-    let one = |rule: usize, attempts: usize, events: usize| vec![ScenShape { rule, attempts, events, cut: false }];
+    let one = |rule: usize, attempts: usize, events: usize| vec![ScenShape { rule, attempts, events, cut: false, zero: false }];
     let mut three = vec![
         vec![one(0, 1, 2), one(0, 1, 2), one(0, 1, 2)],
         vec![one(0, 1, 2), one(1, 1, 2), one(0, 1, 2)],
@@ -641,8 +644,14 @@ pub fn tier_shapes(thorough: bool) -> Vec<Shape> {
     }
     // abandoned retries: at feature level, inside a rule, next to a complete scenario, before
     // another feature
-    let cut = |rule: usize| ScenShape { rule, attempts: 1, events: 3, cut: true };
-    let ok = |rule: usize| ScenShape { rule, attempts: 1, events: 2, cut: false };
+    let cut = |rule: usize| ScenShape { rule, attempts: 1, events: 3, cut: true, zero: false };
+    let ok = |rule: usize| ScenShape { rule, attempts: 1, events: 2, cut: false, zero: false };
+    // a scenario whose only attempt carries `Retries { current: 0, left: 0 }` in front of
+    // other content: in the feature, inside a rule, and in front of a second feature
+    let zero = |rule: usize| ScenShape { rule, attempts: 1, events: 3, cut: false, zero: true };
+    for feats in [vec![vec![zero(0), ok(0)]], vec![vec![zero(1), ok(1)]], vec![vec![zero(0)], vec![ok(0)]]] {
+        v.push(Shape { feats, parsing_finished: false, parse_err: false, twins: false });
+    }
     for feats in [
         vec![vec![cut(0)]],
         vec![vec![cut(1)]],
